@@ -209,7 +209,20 @@ def run_case(task, events, flavour, opt):
         elapsed = env.now() - t0
         srv = box.get('srv')
         tr = srv.transcript if srv else []
-        obs = dict(result=result, exc=type(exc).__name__ if exc else None, elapsed=round(elapsed, 3),
+        # server output that directly followed a blank input line (the probes of sync_original_prompt)
+        replies = set()
+        prev_blank = False
+        for k_, v_ in tr:
+            if k_ == 'in':
+                prev_blank = (v_ == b'')
+            elif prev_blank:
+                for name_, text_ in TEXT.items():
+                    if v_ == text_:
+                        replies.add(name_)
+                        break
+                else:
+                    replies.add('other')
+        obs = dict(result=result, sync_replies='+'.join(sorted(replies)), exc=type(exc).__name__ if exc else None, elapsed=round(elapsed, 3),
                    shell=srv.shell if srv else None, prompt=srv.prompt if srv else None,
                    transcript=[(k, v[:40]) for k, v in tr][-12:])
         pw = opt['password'].encode()
@@ -268,9 +281,13 @@ def run_case(task, events, flavour, opt):
     return obs, viol
 
 
-def vkey(task, events, opt, sym):
+def vkey(task, events, opt, sym, obs=None):
     if sym == 'silent-success':
-        return 'silent-success:auto_prompt_reset=%s:sync_original_prompt=%s' % (opt['auto_prompt_reset'], opt['sync_original_prompt'])
+        key = 'silent-success:auto_prompt_reset=%s:sync_original_prompt=%s' % (opt['auto_prompt_reset'], opt['sync_original_prompt'])
+        if opt['sync_original_prompt'] and obs is not None:
+            # what did the server print in reply to the blank lines of the synchronisation?
+            key += ':sync-replies=' + (obs.get('sync_replies') or 'nothing')
+        return key
     return '%s:%s:%s' % (task['mode'], sym, '-'.join(events))
 
 
@@ -306,7 +323,7 @@ def run_task(task):
                         acc.flags['prompt_delimits'] += 1
                     acc.outcomes['%s/%s' % (obs.get('exc') or obs.get('result'), 'viol:' + viol[0] if viol else 'ok')] += 1
                     if viol:
-                        acc.violation(vkey(task, events, opt, viol[0]),
+                        acc.violation(vkey(task, events, opt, viol[0], obs),
                                       'dialogue %r flavour %s options %r: %s | obs %r' % (events, flavour, opt, viol[1], obs),
                                       dict(task=task, events=list(events), flavour=flavour, opt=opt))
     acc.states += 1
@@ -321,5 +338,5 @@ def replay(spec):
     obs, viol = run_case(task, tuple(spec['events']), spec['flavour'], spec['opt'])
     out = {'observation': {k: repr(v) for k, v in obs.items()}, 'violation': None}
     if viol:
-        out['violation'] = {'key': vkey(task, tuple(spec['events']), spec['opt'], viol[0]), 'msg': viol[1]}
+        out['violation'] = {'key': vkey(task, tuple(spec['events']), spec['opt'], viol[0], obs), 'msg': viol[1]}
     return out
